@@ -34,8 +34,11 @@ type fsDB struct {
 	tables map[string]*fsTable
 	log    []fsStmt
 	onLog  func(fsStmt) // called under mu
-	// onWrite is called (under mu) for every row change: table, before (nil for insert), after (nil for delete)
-	onWrite func(table string, before, after map[string]driver.Value)
+	// onWrite is called (under mu) for every row change: table, position of the row in the table as it was when the
+	// statement started (-1 for an appended row), before (nil for insert), after (nil for delete)
+	onWrite func(table string, idx int, before, after map[string]driver.Value)
+	// onExecEnd is called (under mu) when a write statement is done
+	onExecEnd func()
 	failNext error
 }
 
@@ -373,6 +376,16 @@ func (c *fsConn) QueryContext(ctx context.Context, q string, args []driver.Named
 		c.db.failNext = nil
 		return nil, err
 	}
+	if strings.Contains(q, "information_schema.columns") && len(vals) == 2 {
+		// livesql's fetchColumns: the table's columns in ordinal order
+		out := &fsRows{cols: []string{"column_name"}}
+		if t := c.db.tables[fmt.Sprint(vals[1])]; t != nil {
+			for _, cn := range t.Cols {
+				out.rows = append(out.rows, []driver.Value{cn})
+			}
+		}
+		return out, nil
+	}
 	m := fsSelectRe.FindStringSubmatch(q)
 	if m == nil {
 		return nil, fmt.Errorf("fakesql: unsupported query %q", q)
@@ -429,10 +442,13 @@ func (c *fsConn) ExecContext(ctx context.Context, q string, args []driver.NamedV
 		c.db.failNext = nil
 		return nil, err
 	}
-	write := func(table string, before, after map[string]driver.Value) {
+	write := func(table string, idx int, before, after map[string]driver.Value) {
 		if c.db.onWrite != nil {
-			c.db.onWrite(table, before, after)
+			c.db.onWrite(table, idx, before, after)
 		}
+	}
+	if c.db.onExecEnd != nil {
+		defer c.db.onExecEnd()
 	}
 	cp := func(r map[string]driver.Value) map[string]driver.Value {
 		o := map[string]driver.Value{}
@@ -480,10 +496,10 @@ func (c *fsConn) ExecContext(ctx context.Context, q string, args []driver.NamedV
 				for _, cn := range cols {
 					t.Rows[dup][cn] = row[cn]
 				}
-				write(m[1], before, cp(t.Rows[dup]))
+				write(m[1], dup, before, cp(t.Rows[dup]))
 			default:
 				t.Rows = append(t.Rows, row)
-				write(m[1], nil, cp(row))
+				write(m[1], -1, nil, cp(row))
 			}
 			n++
 		}
@@ -506,13 +522,13 @@ func (c *fsConn) ExecContext(ctx context.Context, q string, args []driver.NamedV
 			return nil, fmt.Errorf("fakesql: argument count in %q", q)
 		}
 		n := int64(0)
-		for _, r := range t.Rows {
+		for k, r := range t.Rows {
 			if fsMatch(cond, vals[len(setCols):], r) {
 				before := cp(r)
 				for j, cn := range setCols {
 					r[cn] = fsNorm(vals[j])
 				}
-				write(m[1], before, cp(r))
+				write(m[1], k, before, cp(r))
 				n++
 			}
 		}
@@ -532,9 +548,9 @@ func (c *fsConn) ExecContext(ctx context.Context, q string, args []driver.NamedV
 		}
 		var keep []map[string]driver.Value
 		n := int64(0)
-		for _, r := range t.Rows {
+		for k, r := range t.Rows {
 			if fsMatch(cond, vals, r) {
-				write(m[1], cp(r), nil)
+				write(m[1], k, cp(r), nil)
 				n++
 			} else {
 				keep = append(keep, r)
